@@ -32,6 +32,10 @@ func runC09(c *Ctx, r *Report) {
 	r.Doc("R-C09.7", "the fetch that rebuilds the log cannot stall or give up with hashes still queued: worker accounting, slot release before the mutex, re-checked condition waits")
 	importRules(c, r, "C11", []string{"R-C11.1", "R-C11.2", "R-C11.6"}, "R-C09.7")
 	r.Doc("R-C09.8", "the entry reader refuses a block only when reading or decoding it failed: no extra acceptance test on the decoded entry (whatever Append wrote must load again)")
+	r.Doc("R-C09.9", "loaders and constructors examine every error result (manifest read, manifest decode, codec construction) before going on")
+	errDiscipline(c, r, "R-C09.9", func(fn *Fn) bool {
+		return rootNamed(fn, "fromMultihash", "fromEntryHash", "fromJSON", "fromEntry", "NewFromMultihash", "NewFromEntryHash", "NewFromJSON", "NewFromEntry", "NewLog", "FromMultihashWithIO")
+	}, "the loader carries on with the zero value of the failed step (a nil manifest, an undecoded block) and builds a log from it", deliberateDiscards)
 	{
 		nret := 0
 		for _, t := range []struct{ pkg, recv, name string }{{"entry", "", "FromMultihashWithIO"}, {"entry", "Fetcher", "fetchEntry"}} {
@@ -270,23 +274,45 @@ func runC09(c *Ctx, r *Report) {
 		}
 	}
 	sawTest := false
-	af.Edge = func(cond ast.Expr, taken bool, f Facts) {
-		had := f["unbounded"]
-		baseEdge(cond, taken, f)
-		// the complementary edge of the no-limit test is a limited path
-		mentions := false
-		ast.Inspect(cond, func(m ast.Node) bool {
-			if e, ok := m.(ast.Expr); ok {
-				if v, _ := p.FieldSel(ane, e); v == lengthF {
-					mentions = true
-				}
+	// limitAtom: is the atom a test of the no-limit case, and which side of it is this edge?
+	limitAtom := func(a condAtom) (isTest, unbounded bool) {
+		be, ok := ast.Unparen(a.E).(*ast.BinaryExpr)
+		if !ok {
+			return false, false
+		}
+		if v, _ := p.FieldSel(ane, be.X); v != lengthF {
+			return false, false
+		}
+		val, neg := "", false
+		switch y := ast.Unparen(be.Y).(type) {
+		case *ast.BasicLit:
+			val = y.Value
+		case *ast.UnaryExpr:
+			if lit, ok := y.X.(*ast.BasicLit); ok && y.Op == token.SUB {
+				val, neg = lit.Value, true
 			}
-			return true
-		})
-		if mentions {
-			sawTest = true
-			if !f["unbounded"] && !had {
-				f["fine"] = true
+		}
+		var whenTrue bool // does the atom being true mean "no limit"?
+		switch {
+		case be.Op == token.LSS && val == "0" && !neg, be.Op == token.LEQ && val == "1" && neg, be.Op == token.EQL && val == "1" && neg:
+			whenTrue = true
+		case be.Op == token.GEQ && val == "0" && !neg, be.Op == token.GTR && val == "1" && neg, be.Op == token.NEQ && val == "1" && neg:
+			whenTrue = false
+		default:
+			return false, false
+		}
+		return true, whenTrue == a.Truth
+	}
+	af.Edge = func(cond ast.Expr, taken bool, f Facts) {
+		baseEdge(cond, taken, f)
+		for _, a := range splitCond(cond, taken) {
+			if isTest, unb := limitAtom(a); isTest {
+				sawTest = true
+				if unb {
+					f["unbounded"] = true
+				} else if !f["unbounded"] {
+					f["fine"] = true // the limited side of the no-limit test
+				}
 			}
 		}
 	}
